@@ -66,9 +66,11 @@ FlagsOf(info) ==
     (IF info.conn THEN {"conn"} ELSE {}) \cup (IF info.perm THEN {"perm"} ELSE {})
     \cup (IF info.undef THEN {"undef"} ELSE {})
 
+\* a vector of the documented parameterised space
+InParamSpace(v) == Len(v) = 6 /\ \A i \in 1..6 : v[i] >= 0 /\ v[i] < ParamNvec[i]
 ActOfEv(x) ==
     CASE x.enc \in {"int", "npint", "np0d"} -> FlatAt(x.idx + 1)
-      [] x.enc \in {"list", "tuple", "ndarray"} -> DecodeParam(x.vec)
+      [] x.enc \in {"list", "tuple", "ndarray"} -> IF InParamSpace(x.vec) THEN DecodeParam(x.vec) ELSE NoopAct
       [] OTHER -> x.obj
 
 Report(failed, i) == \A c \in failed : PrintT(<<"FAIL", c[1], c[2], i>>)
@@ -345,10 +347,14 @@ ActionsEv ==
     /\ l' = l + 1
 
 DecodeClauses(ev) ==
+    IF ~InParamSpace(ev.vec)
+      THEN << <<"C11", "vector_of_the_advertised_space_is_in_the_documented_space", FALSE>> >>
+    ELSE
     LET want == DecodeParam(ev.vec) IN
     << <<"C11", "param_decodes_as_spec", ev.got = want>>,
        <<"C11", "param_is_noop_or_flat_member",
-         ev.got = NoopAct \/ \E k \in 1..NActions : FlatAt(k) = ev.got>> >>
+         /\ ev.got = NoopAct \/ \E k \in 1..NActions : FlatAt(k) = ev.got
+         /\ ev.member_by_api_equality>> >>
 
 DecodeEv ==
     /\ l <= N /\ Ev.ev = "decode"
@@ -448,6 +454,16 @@ C19Ev ==
     /\ UNCHANGED <<raw, abs, initRaw, steps, mode, paidVal, paidDisc, prev, grp, ndec, hist>>
     /\ l' = l + 1
 
+\* --------------------------------------------------------- draws across episodes
+\* C07 when the draw is NOT intercepted (numpy's own generator, seeded once): the first draw of the episodes of
+\* one environment is not always the same number
+FreqEv ==
+    /\ l <= N /\ Ev.ev = "freq"
+    /\ Report(Failed(<< <<"C07", "draws_vary_across_episodes",
+                          Ev.episodes >= 5 => Ev.distinct_first_draws > 1>> >>), Ev.i)
+    /\ UNCHANGED <<raw, abs, initRaw, steps, mode, paidVal, paidDisc, prev, grp, ndec, hist>>
+    /\ l' = l + 1
+
 \* --------------------------------------------------------------- malformed
 MalformedEv ==
     /\ l <= N /\ Malformed(Ev)
@@ -480,12 +496,12 @@ RaisedEv ==
 \* an event kind this monitor has no clauses for (validated by another module)
 OtherEv ==
     /\ l <= N /\ Ev.ev \notin {"create", "reset", "step", "genstep", "goal", "raised", "actions", "decode",
-                              "decode_done", "mask", "readable", "plan_end", "episode_end", "c19"}
+                              "decode_done", "mask", "readable", "plan_end", "episode_end", "c19", "freq"}
     /\ UNCHANGED <<raw, abs, initRaw, steps, mode, paidVal, paidDisc, prev, grp, ndec, hist>>
     /\ l' = l + 1
 
 Next == Create \/ ResetEv \/ StepEv \/ GoalEv \/ RaisedEv \/ ActionsEv \/ DecodeEv \/ DecodeDoneEv
-        \/ MaskEv \/ ReadableEv \/ PlanEndEv \/ EpisodeEndEv \/ C19Ev \/ MalformedEv \/ OtherEv
+        \/ MaskEv \/ ReadableEv \/ PlanEndEv \/ EpisodeEndEv \/ C19Ev \/ FreqEv \/ MalformedEv \/ OtherEv
 
 Spec == Init /\ [][Next]_vars
 
